@@ -553,12 +553,21 @@ static Batch run_batch(Property &P, uint64_t base_seed, long runs, double secs, 
 }
 
 // ------------------------------------------------------------------------------------------------
+static long g_transient_timeouts = 0;
 static int report_violation(Property &P, uint64_t seed, J const &plan0, RunResult const &first,
                             std::vector<Known> &known, std::set<std::string> &known_printed,
                             std::set<std::string> &reported_fine, int &n_viol) {
   // determinism gate + fresh-process replay
-  RunResult a = exec_plan_in_child(P, plan0, P.run_timeout_s, "confirm");
-  RunResult b = exec_plan_in_child(P, plan0, P.run_timeout_s, "confirm");
+  // (isolated replays get five times the wall-clock budget of a batch run: they decide, so load must not)
+  RunResult a = exec_plan_in_child(P, plan0, P.run_timeout_s * P.confirm_timeout_factor, "confirm");
+  RunResult b = exec_plan_in_child(P, plan0, P.run_timeout_s * P.confirm_timeout_factor, "confirm");
+  // The hang oracle is the only one that reads a real clock (a per-run wall-clock budget).  On a loaded machine a run can exceed
+  // it without hanging: a timeout that two isolated replays complete, with identical histories, is not a violation of anything.
+  if ((first.oracle == "hang" || first.signature == "hang" || first.signature == "timeout") && !a.violation && !b.violation && a.fingerprint == b.fingerprint) {
+    printf("note: seed %llu exceeded its wall-clock budget in the batch but completes in isolation (twice, same history): transient, ignored\n", (unsigned long long)seed);
+    g_transient_timeouts++;
+    return 0;
+  }
   if (!a.violation || !b.violation || a.cls(P.id) != b.cls(P.id) || a.fingerprint != b.fingerprint) {
     printf("HARNESS-NONDETERMINISM property=%s seed=%llu first=%s replayA=%s(%llu) replayB=%s(%llu)\n", P.id.c_str(),
            (unsigned long long)seed, first.cls(P.id).c_str(), a.violation ? a.cls(P.id).c_str() : "pass", (unsigned long long)a.fingerprint,
@@ -579,7 +588,7 @@ static int report_violation(Property &P, uint64_t seed, J const &plan0, RunResul
   if (known_hit(a)) return 0;
   int execs = 0;
   J small = shrink_plan(P, plan0, cls, execs);
-  RunResult fin = exec_plan_in_child(P, small, P.run_timeout_s, "final");
+  RunResult fin = exec_plan_in_child(P, small, P.run_timeout_s * P.confirm_timeout_factor, "final");
   if (!fin.violation || fin.cls(P.id) != cls) {
     printf("HARNESS-NONDETERMINISM property=%s seed=%llu minimised plan does not reproduce %s\n", P.id.c_str(), (unsigned long long)seed, cls.c_str());
     return 2;
@@ -712,6 +721,7 @@ static int cmd_check(Property &P, bool thorough, int jobs, long runs_override, d
   cov["simulated_steps"] = B.counters.count("steps") ? B.counters["steps"] : 0;
   cov["simulated_fs"] = B.counters.count("sim_fs") ? B.counters["sim_fs"] : 0;
   cov["distinct_measure"] = "distinct history classes: hash of (scenario template, op-kind sequence, fired-fault sequence, schedule signature), counted only for runs that are non-trivial by the rule";
+  cov["transient_timeouts_ignored"] = (long long)g_transient_timeouts;
   cov["worker_restarts"] = (long long)B.worker_restarts;
   cov["time_capped"] = B.time_capped;
   cov["known_findings_reproduced"] = (long long)known_reproduced;
